@@ -34,6 +34,13 @@ func routeInstances(tier string) []explore.Params {
 		}
 		return out
 	}
+	if tier == "late" { // C06: the connection is used again, with bulk data in both directions, 6 s after it was dialled
+		for _, a := range []string{"hA0", "pA0", "hD2000", "pD4900"} {
+			out = append(out, explore.Params{"pat": a, "late": "1"})
+		}
+		out = append(out, explore.Params{"pat": "hA0,pD0", "late": "1"})
+		return out
+	}
 	if tier == "variants" || tier == "variants-thorough" { // TLS on both brokers; a runner that translates addresses
 		for _, v := range []string{"tls", "xlate"} {
 			for _, a := range one {
